@@ -1495,6 +1495,15 @@ fn test_gk(c: &GkCase, stats: &Stats) -> CaseResult {
         let what = format!("patch {j} has an undecodable stream (style {})", c.natural.1 % 3);
         let r = gk.group_apply(&sc.font, &def, &all, &mut map, &Dec::ok(), &what)?;
         gk.expect_failure(r, Some((&map, &before)), "decode-failure", &what)?;
+        // (5b) the patch cut after its 29 byte header: no stream at all is as undecodable as a malformed one
+        let mut bad = sc.patches[j].bytes.clone();
+        bad.truncate(29);
+        let mut map = gk.fresh_map(Some((j, &bad)));
+        let before = snap(&map);
+        let what = format!("patch {j} has a zero-length stream");
+        let r = gk.group_apply(&sc.font, &def, &all, &mut map, &Dec::ok(), &what)?;
+        gk.expect_failure(r, Some((&map, &before)), "decode-failure|empty-stream", &what)?;
+        stats.class("gk:empty-stream-patch");
 
         // (6) other groupings / orders
         if np >= 2 {
@@ -2056,6 +2065,19 @@ fn test_tk(c: &TkCase, stats: &Stats) -> CaseResult {
         let r = guarded(|| group.apply_next_patches_with_decoder(&mut map, &Dec::ok()))?;
         expect_failure(r, Some((&map, &before)), "decode-failure", &what)?;
         stats.class("undecodable-entry");
+        // (5b) the same entry with no stream at all (entry = its 9 byte header): a replace / diff entry without data is
+        // not a drop entry — the decoder is asked and refuses, the application fails and nothing is marked applied
+        let mut es = sc.entries.clone();
+        es[j].3.clear();
+        let bad = encode_tk_patch(if sc.tk_in_x { sc.compat_x } else { sc.compat }, &es);
+        let (group, mut map) = fresh(&bad)?;
+        let before = snap(&map);
+        let what = format!("entry {j} (not a drop entry) has a zero-length stream");
+        let r = guarded(|| group.apply_next_patches_with_decoder(&mut map, &Dec::ok()))?;
+        expect_failure(r, Some((&map, &before)), "decode-failure|empty-stream", &what)?;
+        let r = guarded(|| font.apply_table_keyed_patch(&info, &bad, &Dec::ok()))?;
+        expect_failure(r, None, "decode-failure|empty-stream|low-level", &what)?;
+        stats.class("empty-stream-entry");
     }
     // --- evidence
     let kinds: BTreeSet<u8> = sc.modes.iter().copied().collect();
